@@ -123,3 +123,32 @@ func Predict(pats []Pat, hs []HandlerSet, subject string, payload []byte, hasRep
 	}
 	return d
 }
+
+// ReqFields is the decoded request payload per the RES service protocol.
+type ReqFields struct {
+	CID        string
+	Params     string
+	Token      string
+	Header     map[string][]string
+	Host       string
+	RemoteAddr string
+	URI        string
+	Query      string
+	IsHTTP     bool
+}
+
+// ParseRequest decodes a request payload. ok is false when the payload is
+// not a JSON encoding of a request object.
+func ParseRequest(payload []byte) (ReqFields, bool) {
+	var f ReqFields
+	if len(payload) == 0 {
+		return f, true
+	}
+	var rp reqPayload
+	if err := json.Unmarshal(payload, &rp); err != nil {
+		return f, false
+	}
+	f = ReqFields{CID: rp.CID, Params: string(rp.Params), Token: string(rp.Token), Header: rp.Header, Host: rp.Host,
+		RemoteAddr: rp.RemoteAddr, URI: rp.URI, Query: rp.Query, IsHTTP: rp.IsHTTP}
+	return f, true
+}
